@@ -213,6 +213,10 @@ def check_property(pid, tier, seed):
         "by_engine": {e: sum(1 for o in obs if o.engine == e) for e in sorted({o.engine for o in obs})},
         "solver_seconds": round(sum({(o.harness): o.seconds for o in obs}.values()), 1),
         "all_obligations_unbounded": all_complete,
+        "discharged_unbounded": sum(1 for o in obs if o.outcome == "discharged" and ("complete" in o.label or o.label.startswith("closed"))),
+        "discharged_bounded": sum(1 for o in obs if o.outcome == "discharged" and not ("complete" in o.label or o.label.startswith("closed"))),
+        "label_legend": "complete = all inputs of the stated domain (loop-free or fully unwound, full machine domains) / Verus "
+                        "unbounded; closed = finite evaluation of constants; bounded(..) = stated cap, never counted as proved",
         "bounds": bounds,
         "obligation_table": [o.row() for o in obs],
         "samples": samples or [{"note": "no obligations ran"}],
